@@ -23,19 +23,18 @@ Definition maxQ (l : list Q) : option Q :=
 
 (* numpy.quantile(l, p) with the default 'linear' method: virtual index (n-1)*p,
    interpolate between the two neighbouring order statistics.  0 <= p <= 1, l non-empty. *)
+Definition interp (s : list Q) (pos : Q) : Q :=
+  let lo := Qfloor pos in
+  let g := pos - inject_Z lo in
+  let i := Z.to_nat lo in
+  let a := nth i s 0 in
+  let b := nth (S i) s a in          (* at the last index the upper neighbour does not exist: g = 0 *)
+  a + g * (b - a).
+
 Definition quantile (l : list Q) (p : Q) : option Q :=
   match l with
   | [] => None
-  | _ =>
-    let s := sortQ l in
-    let n := length l in
-    let pos := inject_Z (Z.of_nat (n - 1)) * p in
-    let lo := Qfloor pos in
-    let g := pos - inject_Z lo in
-    let i := Z.to_nat lo in
-    let a := nth i s 0 in
-    let b := nth (S i) s a in        (* at p = 1 the upper neighbour does not exist: g = 0 *)
-    Some (a + g * (b - a))
+  | _ => Some (interp (sortQ l) (inject_Z (Z.of_nat (length l - 1)) * p))
   end.
 
 Definition percentile (l : list Q) (q : Q) : option Q := quantile l (q / 100).
